@@ -48,6 +48,8 @@ type ScriptConn struct {
 	Closed bool
 	// OnRead, if set, is called (without the lock) before each Read is served.
 	OnRead func()
+	// OnWrite, if set, receives every write made before Close.
+	OnWrite func([]byte)
 }
 
 func NewScriptConn(script []Raw) *ScriptConn {
@@ -111,11 +113,15 @@ func (c *ScriptConn) Remaining() []Raw {
 
 func (c *ScriptConn) Write(b []byte) (int, error) {
 	c.mu.Lock()
-	defer c.mu.Unlock()
 	if c.Closed {
+		c.mu.Unlock()
 		return 0, net.ErrClosed
 	}
 	c.Out = append(c.Out, b...)
+	c.mu.Unlock()
+	if c.OnWrite != nil {
+		c.OnWrite(b)
+	}
 	return len(b), nil
 }
 
